@@ -91,7 +91,10 @@ def run(res, tier, seed):
             keep = sum(1 << b for b in MASKBITS[fam])
             lines2 = l1b.default_lines(fmt, n, start, counts=wb, qual=[q & keep for q in qs], switch=sws, numbers=numbers)
             data2 = l1b.build_file(fmt, sc, start, lines2)
-            kw = dict(tle_dir=tle_dir, tle_name=tle_name, adjust_clock_drift=(pattern == "clean-drift"), tle_thresh=40000)
+            plan_no = plans.index((fmt, sc, n, pattern))
+            # every other pass is read with tie-point-only coordinates (interpolation off): the blanking must be the same
+            kw = dict(tle_dir=tle_dir, tle_name=tle_name, adjust_clock_drift=(pattern == "clean-drift"), tle_thresh=40000,
+                      interpolate_coords=(plan_no % 2 == 0))
             try:
                 r = impl.open_reader(fmt, data, **kw)
                 r2 = impl.open_reader(fmt, data2, **kw)
